@@ -169,4 +169,50 @@ def writtenInL (enc : Str) : List RawEntry → Bool
   | e :: es => writtenIn enc e && writtenInL enc es
 end
 
+/-! ## the page directory under the project's `copy_subdir` -/
+
+mutual
+/-- the documented rule ("first priority is the option in the file, if it is not set fall back to the project
+    setting") applied to every page at every depth -/
+def withProjE (pcs : List Str) : Entry → Entry
+  | .file n m => .file n { m with copySub := effCopy pcs m.copySub }
+  | .dir n cs => .dir n (withProjL pcs cs)
+def withProjL (pcs : List Str) : List Entry → List Entry
+  | [] => []
+  | e :: es => withProjE pcs e :: withProjL pcs es
+end
+
+/-! ## "other files and `copy_subdir` directories are copied next to their pages" -/
+
+/-- the directories that the list `items` of a page in the directory `sibs` (at `loc`) names, with everything in
+    them, placed next to the page; a name that is no directory there contributes nothing -/
+def copyAssets (loc : PathS) (sibs : List Entry) : List Str → List (PathS × Bool)
+  | [] => []
+  | it :: r =>
+    (match findEntry it sibs with
+     | some (.dir n cs) => (listAll (.dir n cs)).map (fun p => (loc ++ p.1, p.2))
+     | _ => []) ++ copyAssets loc sibs r
+
+mutual
+/-- what the statement expects next to the page(s) made from the visible entry `e` of the indexed directory
+    `sibs` at `loc`, for a project whose `copy_subdir` is `pcs`: a titled page brings the directories of its own
+    `copy_subdir` (or, if it has none, the project's), any other file is copied itself, an indexed directory is a
+    sub-tree with its own assets -/
+def expAssetsE (pcs : List Str) (loc : PathS) (sibs : List Entry) : Entry → List (PathS × Bool)
+  | .file n m =>
+    if isMd n then (if titled m then copyAssets loc sibs (effCopy pcs m.copySub) else [])
+    else [(loc ++ [n], false)]
+  | .dir n cs => if indexed cs then expAssetsL pcs (loc ++ [n]) cs cs else []
+def expAssetsL (pcs : List Str) (loc : PathS) (sibs : List Entry) : List Entry → List (PathS × Bool)
+  | [] => []
+  | e :: es => (if skipName e.name then [] else expAssetsE pcs loc sibs e) ++ expAssetsL pcs loc sibs es
+end
+
+/-- everything the statement expects below `<output>/page` besides the pages themselves -/
+def expAssets (pcs : List Str) (cs : List Entry) : List (PathS × Bool) :=
+  if indexed cs then expAssetsL pcs [] cs cs else []
+
+/-- the paths that exist in an output state -/
+def paths (st : List (PathS × Bool)) : List PathS := st.map Prod.fst
+
 end Ford.PT
